@@ -122,7 +122,20 @@ def _g_wd(rng, tier):
 
 
 _set(IU + "w_tilde_data_imaging_from", _g_wd)
-# (w_tilde_curvature_preload_imaging_from is quadratic in the pixel count: one large case does not finish inside the escalation cap)
+
+
+def _g_pre_large(rng, tier):
+    # the function is quadratic in the pixel count: thin kernels keep each pair cheap, so > 1024 unmasked pixels (wide and tall) finish in seconds
+    for (H, W, ky, kx) in [(3, 345, 3, 1), (345, 3, 1, 3)]:
+        hy, hx = ky // 2, kx // 2
+        mask = np.ones((H + 2 * hy, W + 2 * hx), dtype=bool)
+        mask[hy:H + hy, hx:W + hx] = False
+        noise = gens.reals(rng, mask.shape, 0.3, 2.5, special=False); noise[mask] = 0.0
+        yield {"noise_map_native": noise, "kernel_native": gens.reals(rng, (ky, kx), -2, 2, special=False),
+               "native_index_for_slim_index": np.argwhere(~mask).astype(int)}
+
+
+_set(IU + "w_tilde_curvature_preload_imaging_from", _g_pre_large)
 
 
 def _g_bin(rng, tier):
